@@ -11,6 +11,10 @@
 //	    failures (all p files removed; a data bit flipped in all p files) still reads back the
 //	    stored bytes.
 //
+// One violation per case: when (1) fails the case is "not-repaired" and the further failures that are
+// then not tolerated are recorded in its detail as the consequence; "redundancy-lost" is the case where
+// every file is as written and (2) fails all the same.
+//
 // Weaker readings chosen: a first read that fails, returns other bytes or kills the process is
 // C25's subject and only counted here; the further failures of (2) are uniform (all missing or
 // all bit-flipped), the two kinds the library handles on an undamaged blob, so that C25's mixed-kind
@@ -230,7 +234,27 @@ func Run(r *report.Run) int {
 			}
 		}
 		v.detail["smallest_culprit"] = v.culprit
-		sig := fmt.Sprintf("C26:%s:%s:%s", c25.Config{D: v.c.D, P: v.c.P}, c25.SigKinds(v.culprit, v.class), v.class)
+		// "not-repaired" is named by the damage kinds that were left on disk: the culprit's shards that
+		// still differ after the read (the other damages of the culprit were repaired; they only shaped
+		// what the decoder looked at). If the files that differ are not among the damaged ones (a repair
+		// that wrote into the wrong place) the whole culprit names the class.
+		named := v.culprit
+		if v.class == "not-repaired" {
+			left := map[int]bool{}
+			for _, u := range v.res.Unrepaired {
+				left[u.Shard] = true
+			}
+			var still []c25.Damage
+			for _, dm := range v.culprit {
+				if left[dm.Shard] {
+					still = append(still, dm)
+				}
+			}
+			if len(still) > 0 {
+				named = still
+			}
+		}
+		sig := fmt.Sprintf("C26:%s:%s:%s", c25.Config{D: v.c.D, P: v.c.P}, c25.SigKinds(named, v.class), v.class)
 		em.Add(sig, len(v.c.Dmg)*1000000+(v.c.D+v.c.P)*100000+min(v.c.Size, 99999), v.detail,
 			fmt.Sprintf("size=%d dmg=[%s] -> %v", v.c.Size, c25.DmgKey(v.c.Dmg), brief(v.detail["observed"])))
 	}
